@@ -41,6 +41,7 @@ Theorem C05_interface_ok_spec : forall double ins outs inn outn np m,
     List.length (og_inputs g) = (List.length ins + np)%nat /\ List.length (og_outputs g) = List.length outs /\
     (forall j v, In (j, v) (combine ins (firstn (List.length ins) (og_inputs g))) -> leaf_ok true double j v = true) /\
     (forall j v, In (j, v) (combine outs (og_outputs g)) -> leaf_ok false double j v = true) /\
-    names_distinct (map vi_name (og_inputs g) ++ map vi_name (og_outputs g)) = true.
+    names_distinct (map vi_name (og_inputs g)) = true /\
+    (outn <> None -> names_distinct (map vi_name (og_inputs g) ++ map vi_name (og_outputs g)) = true).
 Proof. exact interface_ok_spec. Qed.
 Print Assumptions C05_interface_ok_spec.
